@@ -4,10 +4,10 @@ CONSTANT Double   \* TRUE: also every pair of (file status / removed entity) fau
 VARIABLE sc
 Simple(w) == {x \in Faults(w) : x.kind \in {"status", "removeEntity"}}
 Doubles(w) == UNION {{[kind |-> "double", first |-> f1, second |-> f2] : f2 \in {y \in Simple(ApplyFault(w, f1)) : y # f1}} : f1 \in Simple(w)}
-Init == sc \in UNION {{[world |-> wn, fault |-> flt, strict |-> s] : flt \in {x \in Faults(Worlds[wn]) : SensibleFault(Worlds[wn], x)} \cup (IF Double THEN Doubles(Worlds[wn]) ELSE {}), s \in BOOLEAN} : wn \in DOMAIN Worlds}
+Init == sc \in UNION {{[world |-> wn, fault |-> flt, strict |-> s, grouped |-> g] : g \in BOOLEAN, flt \in {x \in Faults(Worlds[wn]) : SensibleFault(Worlds[wn], x)} \cup (IF Double THEN Doubles(Worlds[wn]) ELSE {}), s \in BOOLEAN} : wn \in DOMAIN Worlds}
 Faulted == IF sc.fault.kind = "double" THEN ApplyFault(ApplyFault(Worlds[sc.world], sc.fault.first), sc.fault.second) ELSE ApplyFault(Worlds[sc.world], sc.fault)
 Next == UNCHANGED sc
 Spec == Init /\ [][Next]_sc
 BaseSat == Satisfiable(Worlds[sc.world])      \* every base world is resolvable (checked for each)
-Emit == EmitScenario([world |-> sc.world, fault |-> sc.fault, strict |-> sc.strict, files |-> Faulted, repaired |-> Worlds[sc.world]])
+Emit == EmitScenario([world |-> sc.world, fault |-> sc.fault, strict |-> sc.strict, grouped |-> sc.grouped, files |-> Faulted, repaired |-> Worlds[sc.world]])
 =============================================================================
